@@ -245,14 +245,40 @@ def slack_weights(ctx, rid, fns):
                 ctx.inst(rid, fn, loop, okw,
                          "unit weights under `not log_trick`" if okw else
                          "slack weights are not selected by the log_trick flag")
+        # num_bits calls outside a loop header (e.g. `n = num_bits(..)` feeding a comprehension of weights)
+        inloops = {id(c) for lp_ in ast.walk(fn.node) if isinstance(lp_, ast.For) for c in calls_in(lp_.iter, 'num_bits')}
+        for c in calls_in(fn.node, 'num_bits'):
+            if id(c) in inloops:
+                continue
+            n7 += 1
+            farg = c.args[1] if len(c.args) > 1 else kwarg(c, 'log_trick')
+            okf = farg is not None and is_name(farg, flag) and flag in fn.all_params
+            ctx.inst(rid, fn, c, okf,
+                     "num_bits receives the method's log_trick flag" if okf else
+                     "num_bits is called without the method's log_trick flag (got %s): the number of slack "
+                     "bits and their weights disagree" % (src(farg) if farg is not None else 'default'))
+            ws = [n for n in ast.walk(fn.node) if isinstance(n, ast.IfExp) and src(canon(n).test) == flag]
+            okw = any(any(pow2_exponent(x) is not None for x in ast.walk(canon(w).body)) and
+                      not any(pow2_exponent(x) is not None for x in ast.walk(canon(w).orelse)) and
+                      any(const_num(x) == 1 for x in ast.walk(canon(w).orelse)) for w in ws)
+            ctx.inst(rid, fn, ws[0] if ws else c, okw,
+                     "weights 2**i under the flag, 1 otherwise" if okw else
+                     "slack weights are not selected by the log_trick flag (2**i under the flag, 1 otherwise)")
     if n7 < 3:
-        raise AnalysisError("slack_weights: fewer than 3 slack loops found (%d)" % n7)
+        raise AnalysisError("slack_weights: fewer than 3 slack registers found (%d)" % n7)
 
 def rules(ctx):
     P, R = ctx.prog, ctx.res
+    ctx.rule('R02.20', "no function writes module-level state (memo / registry): results independent of earlier calls", floor=1)
+    from .C14 import no_module_state as _nms
+    _nms(ctx, 'R02.20')
     from .C14 import derived_fields
     ctx.rule('R02.18', "a field of model objects outside the frozen bookkeeping fields that is written together with the terms / a bookkeeping field is written by every other mutator of that state (no stale memo)", floor=1)
     derived_fields(ctx, 'R02.18')
+    ctx.rule('R02.19', "the sat builders the special forms are written with (AND / OR / NOT ...) take their operands as given: "
+                       "model versus label only, operand tuple not rebound", floor=14)
+    from .C07 import operand_discipline
+    operand_discipline(ctx, 'R02.19', 'R02.19')
     E = Effects(P, R)
     ctx.rule('R02.1', "each add_constraint_R_zero records exactly {R: +1} on every path", floor=6)
     ctx.rule('R02.2', "is_solution_valid reads the written keys with the comparator the key names", floor=7)
@@ -918,6 +944,22 @@ def lam_zero_rule(ctx, rid, fn, lam='lam'):
               "no penalty site found"))
 
 
+def _slack_sum(fn, arg, pname):
+    """`P + M({(self._next_ancilla,): w for w in W})`: returns the text of W, else None"""
+    if not (isinstance(arg, ast.BinOp) and isinstance(arg.op, ast.Add)):
+        return None
+    for a, b in ((arg.left, arg.right), (arg.right, arg.left)):
+        if not is_name(a, pname):
+            continue
+        e = expand_names(fn.node, b)
+        while isinstance(e, ast.Call) and len(e.args) == 1 and not e.keywords and src(e.func).split('.')[-1] in ('PUBO', 'PCBO', 'dict'):
+            e = expand_names(fn.node, e.args[0])
+        if isinstance(e, ast.DictComp) and len(e.generators) == 1 and not e.generators[0].ifs and '_next_ancilla' in src(e.key) \
+                and isinstance(e.generators[0].target, ast.Name) and is_name(e.value, e.generators[0].target.id):
+            return src(e.generators[0].iter)
+    return None
+
+
 def bounds_handoff(ctx, rid, fn):
     R = ctx.res
     selfn = R.self_name(fn)
@@ -961,6 +1003,16 @@ def bounds_handoff(ctx, rid, fn):
                      "polynomial negated, bounds (-%s, -%s)" % (mx, mn) if ok else
                      "the negated polynomial is forwarded with bounds (%s, %s) instead of (-%s, -%s): the "
                      "enclosure no longer contains the polynomial's range" % (lo, hi, mx, mn))
+        elif _slack_sum(fn, arg, pname) is not None:
+            # P + (slack ancillas weighted by the elements of W): the maximum grows by sum(W), the minimum stays
+            W = _slack_sum(fn, arg, pname)
+            hi_x = src(expand_names(fn.node, bt.elts[1]))
+            ok = lo == mn and (hi in ('%s + sum(%s)' % (mx, W), 'sum(%s) + %s' % (W, mx)) or
+                               hi_x in ('%s + sum(%s)' % (mx, W), 'sum(%s) + %s' % (W, mx)))
+            ctx.inst(rid, fn, c, ok,
+                     "polynomial widened by slack bits weighted by %s, bounds (%s, %s + sum(%s))" % (W, mn, mx, W) if ok else
+                     "the polynomial plus slack bits weighted by %s is forwarded with bounds (%s, %s) instead of (%s, %s + sum(%s))"
+                     % (W, lo, hi, mn, mx, W))
         else:
             ok = (lo, hi) == (mn, mx)
             ctx.inst(rid, fn, c, ok,
